@@ -239,20 +239,23 @@ pub fn parse_module(mut parser: SourceParser) -> Module<()> {
     associated_comments.append(&mut parser.assert_and_consume_operator(TokenOp::RightBrace).1);
     associated_comments.append(&mut parser.assert_and_consume_keyword(Keyword::From).1);
     let import_loc_start = parser.peek().0;
+    let mut import_loc_end = import_loc_start;
     let imported_module_parts = {
-      let (_, id, mut comments) = parser.assert_and_consume_identifier();
+      let (loc, id, mut comments) = parser.assert_and_consume_identifier();
+      import_loc_end = loc;
       associated_comments.append(&mut comments);
       let mut collector = vec![id];
       while let Token(_, TokenContent::Operator(TokenOp::Dot)) = parser.peek() {
         associated_comments.append(&mut parser.consume());
-        let (_, id, mut comments) = parser.assert_and_consume_identifier();
+        let (loc, id, mut comments) = parser.assert_and_consume_identifier();
+        import_loc_end = loc;
         associated_comments.append(&mut comments);
         collector.push(id);
       }
       collector
     };
     let imported_module = parser.heap.alloc_module_reference(imported_module_parts);
-    let imported_module_loc = import_loc_start.union(&parser.last_location);
+    let imported_module_loc = import_loc_start.union(&import_loc_end);
     for variable in imported_members.iter() {
       parser.class_source_map.insert(variable.name, imported_module);
     }
